@@ -31,11 +31,16 @@ func symIndex(fr *frame, idx value, n int) int {
 
 func inBounds(b *smt.Builder, s sv, n int) *smt.Term {
 	w := s.t.W
-	nn := b.Const(w, uint64(n))
 	if kindSigned(s.k) {
-		return b.And(b.Sle(b.Const(w, 0), s.t), b.Slt(s.t, nn))
+		if w < 64 && uint64(n) > (uint64(1)<<uint(w-1))-1 {
+			return b.Sle(b.Const(w, 0), s.t) // every non-negative value is below n
+		}
+		return b.And(b.Sle(b.Const(w, 0), s.t), b.Slt(s.t, b.Const(w, uint64(n))))
 	}
-	return b.Ult(s.t, nn)
+	if w < 64 && uint64(n) > (uint64(1)<<uint(w))-1 {
+		return b.True() // n does not fit in the index type: always in bounds
+	}
+	return b.Ult(s.t, b.Const(w, uint64(n)))
 }
 
 // symRead reads elems[idx]; a symbolic index over scalar elements becomes an ite chain.
